@@ -77,7 +77,10 @@ func buildTxs(w *world, x *execCtx, specs []*txSpec, height int64) []module.Tran
 			txs = append(txs, newScriptTx(w, x, i, s, ts))
 		default:
 			v := &v3spec{from: w.cfg.eoas[s.from], to: s.to, value: s.value, stepLimit: s.stepLimit, nonce: int64(i), timestamp: ts}
-			if s.kind == kScore {
+			if s.kind == kScore && s.async {
+				v.dataType = "call"
+				v.data = map[string]any{"method": "aw", "params": map[string]any{"p": encodeOps(s.prog), "c": calleeNames[s.callee]}}
+			} else if s.kind == kScore {
 				m := "wld"
 				if s.isolated {
 					m = "iso"
@@ -119,6 +122,10 @@ func (r *execResult) ok() bool {
 }
 
 func execute(rc *kit.RunCtx, w *world, specs []*txSpec, level int, scheduled bool, name string) *execResult {
+	return executeWith(rc, w, specs, level, scheduled, name, -1, 0)
+}
+
+func executeWith(rc *kit.RunCtx, w *world, specs []*txSpec, level int, scheduled bool, name string, victim, grace int) *execResult {
 	res := &execResult{name: name, level: level}
 	resetRegistry()
 	stx := newSetupTx()
@@ -129,6 +136,7 @@ func execute(rc *kit.RunCtx, w *world, specs []*txSpec, level int, scheduled boo
 	}
 	x := newExecCtx(rc, name, scheduled, level, len(specs))
 	x.w = w
+	x.victim, x.grace = victim, grace
 	res.x = x
 	tr := n.newTransition(buildTxs(w, x, specs, n.height+1), x)
 	if scheduled {
@@ -206,6 +214,12 @@ func (e engine) Run(rc *kit.RunCtx) {
 	w := newWorld(cfg)
 	level := levels[t.Weighted("level", levelWeights(prop)...)]
 	specs := genBlock(t, w, prop, rc.Profile)
+	// schedule shape: optionally starve one transaction after a few of its turns
+	victim := t.Choose("starve", maxTx+1) - 1
+	grace := t.Choose("starvegrace", 8)
+	if victim >= len(specs) {
+		victim = -1
+	}
 
 	rc.Config["level"] = level
 	rc.Config["ntx"] = len(specs)
@@ -222,7 +236,8 @@ func (e engine) Run(rc *kit.RunCtx) {
 		rc.Event("tx %d: %s", i, s)
 	}
 
-	conc := execute(rc, w, specs, level, true, "X")
+	rc.Event("starve victim=%d grace=%d", victim, grace)
+	conc := executeWith(rc, w, specs, level, true, "X", victim, grace)
 	rc.Metric("sched_steps", int64(conc.x.steps))
 	rc.Event("X outcome finished=%v deadlock=%v err=%v receipts=%d hash=%x", conc.out.finished, conc.out.deadlock, errCode(conc.out), len(conc.receipts), conc.hash)
 	if conc.out.deadlock {
@@ -290,6 +305,12 @@ func (e engine) probes(rc *kit.RunCtx, w *world, specs []*txSpec, conc, seq *exe
 	if conc.x.waited {
 		rc.Probe("waited_on_predecessor")
 	}
+	if conc.x.commitWaited {
+		rc.Probe("commit_waited_for_untouched_account")
+	}
+	if conc.x.starved {
+		rc.Probe("starved_transaction")
+	}
 	// receipts are looked at on the scheduled execution, or on the sequential one if the scheduled one never finished
 	ref := conc
 	if conc.out.deadlock {
@@ -297,6 +318,21 @@ func (e engine) probes(rc *kit.RunCtx, w *world, specs []*txSpec, conc, seq *exe
 	}
 	injFired := false
 	for i, s := range specs {
+		if level > 1 && s.kind == kScript && s.script.world != lockWrite {
+			touched := map[int]bool{}
+			for _, o := range s.script.ops {
+				touched[o.cell] = true
+			}
+			for _, c := range s.script.order {
+				if s.script.locks[c] == lockWrite && !touched[c] {
+					rc.Probe("untouched_write_lock_script")
+					break
+				}
+			}
+			if len(s.script.ops) == 0 {
+				rc.Probe("empty_or_aborted_script")
+			}
+		}
 		if s.kind == kScript && s.script.world != lockNone || s.kind == kScore && !s.isolated {
 			if level > 1 {
 				rc.Probe("world_lock_tx")
@@ -342,6 +378,9 @@ func (e engine) probes(rc *kit.RunCtx, w *world, specs []*txSpec, conc, seq *exe
 			switch r.Status() {
 			case module.StatusOutOfBalance:
 				rc.Probe("insufficient_balance")
+				if s.lazy && level > 1 && s.kind == kTransfer && s.toName != w.cfg.eoas[s.from].name {
+					rc.Probe("untouched_write_lock_transfer")
+				}
 			case module.StatusOutOfStep:
 				rc.Probe("out_of_step")
 			case module.StatusReverted:
@@ -359,6 +398,24 @@ func (e engine) probes(rc *kit.RunCtx, w *world, specs []*txSpec, conc, seq *exe
 				if s.kind == kScore && expectedLogs(w, s) > 0 {
 					rc.Probe("success_with_event_logs")
 				}
+			}
+			if s.async && r.Status() == module.StatusTimeout {
+				// cleanUpFrames unwound the writer's frame while its callee's frame was the current one
+				mut := false
+				for _, o := range s.prog {
+					if o.op == 's' || o.op == 'a' || o.op == 't' {
+						mut = true
+					}
+				}
+				switch {
+				case s.callee == calleeRoTimeout && mut:
+					rc.Probe("cleanup_under_readonly_callee_after_mutation")
+				case s.callee == calleeRwTimeout && mut:
+					rc.Probe("cleanup_under_writable_callee_after_mutation")
+				}
+			}
+			if s.async && r.Status() == module.StatusSuccess {
+				rc.Probe("async_writer_success")
 			}
 			if r.Status() != module.StatusSuccess {
 				rc.Probe("failed_receipt")
@@ -408,6 +465,9 @@ func kindName(s *txSpec) string {
 	case kTransfer:
 		return "transfer"
 	case kScore:
+		if s.async {
+			return "writer-" + calleeNames[s.callee]
+		}
 		if s.isolated {
 			return "score-iso"
 		}
